@@ -484,6 +484,14 @@ def enumerate_live():
     return _enum_cache['r']
 
 
+# half of the probes of the large families run below an outer frame (see statement forms)
+OUTER = ['', ' outer=1', ' outer=2']
+
+
+def outer_rot(i):
+    return OUTER[(0, 1, 0, 2)[i % 4]]
+
+
 def probe(pid, mode, marker, code, desc, leak=0):
     return 'sb_probe id=%d mode=%s marker=%d leak=%d code=%s %s' % (pid, mode, marker, leak, hx(code), desc)
 
@@ -595,16 +603,19 @@ def _generate(seed, tier):
         k = 0
         for mode in (modes or ('filter', 'event', 'inbox', 'console')):
             for marker in (1, 0):
-                k += 1
-                code = fresh(tmpl) % (M if marker else fresh(plain))
-                lines.append(probe(k, mode, marker, code, 'kind=form form=%s' % form))
+                # outer=1: the entry point is called while a non-sandboxed ScriptFrame lies on the thread's frame stack; outer=2: from
+                # inside a native function run through Function::Invoke (how the built-in check functions emit check result events)
+                for outer in (0, 1, 2):
+                    k += 1
+                    code = fresh(tmpl) % (M if marker else fresh(plain))
+                    lines.append(probe(k, mode, marker, code, 'kind=form form=%s%s' % (form, OUTER[outer])))
         add(lines, 'statement-form', form=form)
     # 1b. WRITERS x POSITIONS x LEFT-HAND SIDES
     ps = writer_position_probes(fns, rnd, tier)
     for j in range(0, len(ps), 40):
         lines = []
         for i, (mode, code, desc) in enumerate(ps[j:j + 40]):
-            lines.append(probe(i + 1, mode, 0, fresh(code), desc))
+            lines.append(probe(i + 1, mode, 0, fresh(code), desc + outer_rot(i + j // 40)))
         add(lines, 'writer-position')
     # 2. every live function / prototype method
     skipped = []
@@ -614,7 +625,7 @@ def _generate(seed, tier):
             skipped.append(fn['name'])
             continue
         rnd.shuffle(ps)
-        lines = [probe(i + 1, mode, marker, code, desc) for i, (mode, marker, code, desc) in enumerate(ps)]
+        lines = [probe(i + 1, mode, marker, code, desc + outer_rot(i)) for i, (mode, marker, code, desc) in enumerate(ps)]
         add(lines, 'function-call', fn=fn['name'], safe=fn['safe'])
     # 2c. PURITY: every function registered side-effect-free x every argument position (and `this`) x every live shared
     #     container / object, under deep snapshots (class changed:call:<name> on any difference)
@@ -625,7 +636,7 @@ def _generate(seed, tier):
         if not ps:
             continue
         for j in range(0, len(ps), 40):
-            lines = [probe(i + 1, mode, 0, code, desc) for i, (mode, code, desc) in enumerate(ps[j:j + 40])]
+            lines = [probe(i + 1, mode, 0, code, desc + outer_rot(i + j // 40)) for i, (mode, code, desc) in enumerate(ps[j:j + 40])]
             add(lines, 'purity', fn=fn['name'], safe=1)
     # 2d. HIDDEN READS THROUGH NATIVES: every side-effect-free function x every position x {owner of a no_user_view field,
     #     reference to the field, containers of them}; the value is handed back (console) or compared with the secret (filters)
@@ -636,12 +647,28 @@ def _generate(seed, tier):
         for j in range(0, len(ps), 40):
             lines = [probe(i + 1, mode, 0, code, desc, leak=leak) for i, (mode, code, desc, leak) in enumerate(ps[j:j + 40])]
             add(lines, 'hidden-via-native', fn=fn['name'], safe=1)
-    # 3. every type as constructor
+    # 3. every type as constructor: VMOps::ConstructorCall has no sandbox test, so EVERY live type (enumerated from the running
+    #    process) is constructed - and its temporary destroyed - inside sandboxed frames, without and with arguments, through every
+    #    entry point, also below an outer script frame; besides the deep snapshots the harness compares the PROCESS-GLOBAL
+    #    singletons and registries (Application / IcingaApplication / ApiListener instance, shutdown / restart flags, loggers,
+    #    type and event-queue registries, dependency graph, per-type object counts): any difference = changed:construct:<Type>
     lines = []
+    CT_MODES = ('console', 'filter', 'event', 'inbox', 'filterperm')
+    CT_ARGS = [(0, ''), (1, '1'), (2, '"a", 1')]
     for i, t in enumerate(types):
-        mode = ('console', 'filter', 'event')[(i + seed) % 3]
-        lines.append(probe(2 * i + 1, mode, 1, 'Types.%s(%s)\n0' % (t['name'], M), 'kind=ctor ty=%s' % hx(t['name'])))
-        lines.append(probe(2 * i + 2, mode, 0, 'Json.encode(Types.%s())' % t['name'] if mode == 'console' else 'Types.%s()' % t['name'], 'kind=ctor ty=%s' % hx(t['name'])))
+        mode = CT_MODES[(i + seed) % 5]
+        desc = 'kind=ctor ty=%s' % hx(t['name'])
+        lines.append(probe(len(lines) + 1, mode, 1, 'Types.%s(%s)\n0' % (t['name'], M), desc))
+        k = 0
+        for n, al in CT_ARGS:
+            for form in ('Types.%s(%s)', '[ Types.%s(%s) ].len()', 'typeof(Types.%s(%s))'):
+                k += 1
+                modes = CT_MODES if tier != 'quick' else (CT_MODES[(i + k + seed) % 5], CT_MODES[(i + k + seed + 2) % 5])
+                for mode in modes:
+                    call = form % (t['name'], al)
+                    code = 'Json.encode(%s)' % call if mode == 'console' else call
+                    outer = (i + k + len(lines)) % 3
+                    lines.append(probe(len(lines) + 1, mode, 0, code, desc + ' nargs=%d restore=1%s' % (n, ' outer=%d' % outer if outer else '')))
     for j in range(0, len(lines), 20):
         add(lines[j:j + 20], 'constructor')
     # 4. every no_user_view field of every type with a live object
@@ -745,7 +772,7 @@ def _generate(seed, tier):
             for mode in modes:
                 uid[0] += 1
                 ps.append((mode, 0, '[ "SbCb%d", 1 ].%s(%s)\n0' % (uid[0], key, cbx), desc))
-        lines = [probe(i + 1, mode, marker, code, desc) for i, (mode, marker, code, desc) in enumerate(ps)]
+        lines = [probe(i + 1, mode, marker, code, desc + outer_rot(i)) for i, (mode, marker, code, desc) in enumerate(ps)]
         add(lines, 'unsafe-callback', cb=cbf['name'])
     # 5. hidden globals (F-C19-b), each in a case of its own
     for mode, code, leak in (('console', 'TicketSalt', 0), ('console', 'globals.TicketSalt', 0), ('filter', 'TicketSalt == "sbSALTval"', 1),
@@ -785,6 +812,9 @@ def classify(case, detail, impl_lines):
         return 'const-in-sandbox'
     if clause == 'hidden' and what == 'global:TicketSalt':
         return 'ticketsalt-global-readable'
+    # Application::~Application() resets the process-global instance: only the singleton section differs, only for that type
+    if clause == 'changed' and what == 'construct:IcingaApplication' and d.get('diff', '') == '~singletons':
+        return 'application-dtor-resets-instance'
     if clause == 'hidden' and what.startswith('retobj:') and mode == 'console':
         return 'console-returns-hidden-fields'
     return '%s:%s' % (clause, what)
